@@ -7,9 +7,12 @@ import (
 	"fmt"
 	"math/big"
 	"os"
+	"sort"
+	"time"
 
 	"verifharness/absx"
 	"verifharness/l1"
+	"verifharness/l2"
 	"verifharness/walk"
 )
 
@@ -21,6 +24,51 @@ func (i l1Impl) Exec(e absx.M) (bool, absx.M, string) {
 	return o.OK, o.Resp, o.Err
 }
 func (i l1Impl) Project() absx.M { return i.ch.Project() }
+
+type l2Impl struct{ ch *l2.Chain }
+
+func (i l2Impl) Fork() walk.Impl { return l2Impl{i.ch.Fork()} }
+func (i l2Impl) Exec(e absx.M) (bool, absx.M, string) {
+	o := i.ch.Exec(e)
+	return o.OK, o.Resp, o.Err
+}
+func (i l2Impl) Project() absx.M { return i.ch.Project() }
+
+type valImpl struct{ ch *l2.Chain }
+
+func (i valImpl) Fork() walk.Impl { return valImpl{i.ch.Fork()} }
+func (i valImpl) Exec(e absx.M) (bool, absx.M, string) {
+	o := i.ch.Exec(e)
+	return o.OK, o.Resp, o.Err
+}
+func (i valImpl) Project() absx.M { return i.ch.ProjectVal() }
+
+func newValImpl(seed int64, scale string, meta absx.M) walk.Impl {
+	conc := l1.NewConc(seed, parseScale(scale))
+	ch := l2.NewChain(conc, l2Cfg(meta))
+	var ops, keys []string
+	for _, o := range absx.List(meta["ops"]) {
+		ops = append(ops, absx.Str(o))
+	}
+	for _, k := range absx.List(meta["keys"]) {
+		keys = append(keys, absx.Str(k))
+	}
+	sort.Strings(keys)
+	ch.InitVal(ops, keys)
+	return valImpl{ch}
+}
+
+func l2Cfg(meta absx.M) l2.RunCfg {
+	strs := func(v any) []string {
+		var out []string
+		for _, x := range absx.List(v) {
+			out = append(out, absx.Str(x))
+		}
+		sort.Strings(out)
+		return out
+	}
+	return l2.RunCfg{Accts: strs(meta["accts"]), Denoms: strs(meta["denoms"]), Funded: absx.Map(meta["funded"]), Params: absx.Map(meta["params"]), Devs: strs(meta["devs"])}
+}
 
 func parseScale(s string) *big.Int {
 	v, ok := new(big.Int).SetString(s, 10)
@@ -57,6 +105,7 @@ func main() {
 	scale := fs.String("scale", "1", "amount of one abstract unit")
 	out := fs.String("out", "-", "report path")
 	keep := fs.Int("keep", 50, "mismatches to keep in the report")
+	file := fs.String("file", "", "replay file")
 	_ = fs.Parse(os.Args[2:])
 
 	defer func() {
@@ -71,21 +120,135 @@ func main() {
 
 	switch cmd {
 	case "l1-walk":
+		t0 := time.Now()
+		g, err := walk.Load(*edges)
+		fmt.Fprintf(os.Stderr, "loaded %d states %d edges in %v\n", len(g.States), g.NEdges, time.Since(t0))
+		if err != nil {
+			fmt.Fprintln(os.Stderr, err)
+			os.Exit(2)
+		}
+		t1 := time.Now()
+		rep := walk.Walk(g, func() walk.Impl {
+			conc := l1.NewConc(*seed, parseScale(*scale))
+			cfg := l1.DefaultRunCfg()
+			if g.Meta != nil {
+				l1.ApplyMeta(&cfg, conc, g.Meta)
+			}
+			return l1Impl{l1.NewChain(conc, cfg)}
+		}, *keep)
+		fmt.Fprintf(os.Stderr, "walked in %v\n", time.Since(t1))
+		writeJSON(*out, rep)
+	case "l2-walk":
 		g, err := walk.Load(*edges)
 		if err != nil {
 			fmt.Fprintln(os.Stderr, err)
 			os.Exit(2)
 		}
-		conc := l1.NewConc(*seed, parseScale(*scale))
-		cfg := l1.DefaultRunCfg()
-		if g.Meta != nil {
-			l1.ApplyMeta(&cfg, conc, g.Meta)
-		}
-		ch := l1.NewChain(conc, cfg)
-		rep := walk.Walk(g, l1Impl{ch}, *keep)
+		rep := walk.Walk(g, func() walk.Impl {
+			conc := l1.NewConc(*seed, parseScale(*scale))
+			return l2Impl{l2.NewChain(conc, l2Cfg(g.Meta))}
+		}, *keep)
 		writeJSON(*out, rep)
+	case "val-walk":
+		g, err := walk.Load(*edges)
+		if err != nil {
+			fmt.Fprintln(os.Stderr, err)
+			os.Exit(2)
+		}
+		rep := walk.Walk(g, func() walk.Impl { return newValImpl(*seed, *scale, g.Meta) }, *keep)
+		writeJSON(*out, rep)
+	case "val-replay":
+		os.Exit(replayGeneric(*file, func(nb absx.M) walk.Impl {
+			return newValImpl(absx.Int(nb["seed"]), absx.Str(nb["scale"]), absx.Map(nb["meta"]))
+		}))
+	case "l2-replay":
+		os.Exit(replayGeneric(*file, func(nb absx.M) walk.Impl {
+			conc := l1.NewConc(absx.Int(nb["seed"]), parseScale(absx.Str(nb["scale"])))
+			return l2Impl{l2.NewChain(conc, l2Cfg(absx.Map(nb["meta"])))}
+		}))
+	case "l1-replay":
+		os.Exit(replayL1(*file))
 	default:
 		fmt.Fprintln(os.Stderr, "unknown command", cmd)
 		os.Exit(2)
 	}
+}
+
+// replayL1 re-executes a replay file written by bin/check: the event path from the initial state, then
+// the offending event, printing what the real chain does next to what the specification expects.
+func replayL1(path string) int {
+	bz, err := os.ReadFile(path)
+	if err != nil {
+		fmt.Fprintln(os.Stderr, err)
+		return 2
+	}
+	var body map[string]any
+	if err := json.Unmarshal(bz, &body); err != nil {
+		fmt.Fprintln(os.Stderr, err)
+		return 2
+	}
+	nb := absx.Map(absx.Norm(body))
+	conc := l1.NewConc(absx.Int(nb["seed"]), parseScale(absx.Str(nb["scale"])))
+	cfg := l1.DefaultRunCfg()
+	if m, ok := nb["meta"].(absx.M); ok {
+		l1.ApplyMeta(&cfg, conc, m)
+	}
+	ch := l1.NewChain(conc, cfg)
+	for i, e := range absx.List(nb["path"]) {
+		o := ch.Exec(absx.Map(e))
+		fmt.Printf("step %d %s -> ok=%v %s\n", i+1, absx.Canon(e), o.OK, o.Err)
+	}
+	ev := absx.Map(nb["event"])
+	o := ch.Exec(ev)
+	fmt.Printf("EVENT %s\n  implementation: ok=%v err=%q resp=%s\n  specification expected: %s\n", absx.Canon(ev), o.OK, o.Err, absx.Canon(o.Resp), absx.Canon(nb["expect"]))
+	if o.OK {
+		fmt.Printf("  post-state: %s\n", absx.Canon(ch.Project()))
+	}
+	exp := absx.Map(nb["expect"])
+	if sv, ok := exp["spec_ok"].(bool); ok && sv != o.OK {
+		fmt.Println("REPRODUCED: result differs from the specification")
+		return 1
+	}
+	if absx.Str(nb["kind"]) != "result" {
+		fmt.Println("REPRODUCED? compare post-state/response above with expect.detail")
+		return 1
+	}
+	fmt.Println("not reproduced")
+	return 0
+}
+
+func replayGeneric(path string, mk func(nb absx.M) walk.Impl) int {
+	bz, err := os.ReadFile(path)
+	if err != nil {
+		fmt.Fprintln(os.Stderr, err)
+		return 2
+	}
+	var body map[string]any
+	if err := json.Unmarshal(bz, &body); err != nil {
+		fmt.Fprintln(os.Stderr, err)
+		return 2
+	}
+	nb := absx.Map(absx.Norm(body))
+	im := mk(nb)
+	for i, e := range absx.List(nb["path"]) {
+		ok, _, errs := im.Exec(absx.Map(e))
+		fmt.Printf("step %d %s -> ok=%v %s\n", i+1, absx.Canon(e), ok, errs)
+	}
+	ev := absx.Map(nb["event"])
+	ok, resp, errs := im.Exec(ev)
+	fmt.Printf("EVENT %s\n  implementation: ok=%v err=%q resp=%s\n  specification expected: %s\n", absx.Canon(ev), ok, errs, absx.Canon(resp), absx.Canon(nb["expect"]))
+	if ok {
+		fmt.Printf("  post-state: %s\n", absx.Canon(im.Project()))
+	}
+	exp := absx.Map(nb["expect"])
+	if sv, isb := exp["spec_ok"].(bool); isb && sv != ok {
+		fmt.Println("REPRODUCED: result differs from the specification")
+		return 1
+	}
+	if absx.Str(nb["kind"]) != "result" {
+		fmt.Println("REPRODUCED? compare post-state/response above with expect.detail")
+		return 1
+	}
+	fmt.Println("not reproduced")
+	return 0
 }
